@@ -7,7 +7,13 @@
 //!   ip       bind address without port (`127.0.0.1`, `0.0.0.0`, `[::]`, `[::1]`)
 //!   mode     `B` signal before the first connection, `M` after the first k connections (the rest connect
 //!            afterwards), `C` concurrently with the connects (a second thread, after a seed-chosen delay),
-//!            `A` after all connections have been placed
+//!            `A` after all connections have been placed,
+//!            `Q` LARGE states: the first k connections (the ones that are to hold the workers) are placed one
+//!            by one as in `A`; the others are connected in a burst that stays at most `WINDOW` connections
+//!            ahead of the accept loop (so the listen backlog is never the limit) and are only accepted and
+//!            queued (or idle), no per-connection wait for their state; the signal is sent when the accept loop
+//!            has dealt with all of them. If the accept loop does not move for `STALL` the remaining clients
+//!            are not connected (reported like refused ones) and the signal is sent at once.
 //!   kinds    one letter per client: `J` just accepted (connected, nothing sent), `K` idle keep-alive (one
 //!            request answered, connection open), `H` half-sent request, `S`/`L` handler running short/long,
 //!            `W` response being written (2 MiB body, client not reading), `O` WebSocket open
@@ -19,6 +25,10 @@ use std::sync::Mutex;
 use std::time::{Duration, Instant};
 
 pub const WEDGE: Duration = Duration::from_millis(3000);
+/// mode `Q`: how far the connects may run ahead of the accept loop (well below the listen backlog of 128)
+pub const WINDOW: usize = 48;
+/// mode `Q`: the accept loop has not dealt with a single connection for this long although connections are waiting
+pub const STALL: Duration = Duration::from_millis(2500);
 pub const SHORT_MS: u64 = 30;
 pub const LONG_MS: u64 = 350;
 pub const BIG: usize = 2 << 20;
@@ -147,6 +157,8 @@ struct Client {
     got: Vec<u8>,
     placed_before_signal: bool,
     denied_by_plan: bool,
+    /// position among the successful connects (= position in the accept loop's order when nothing connects concurrently)
+    ord: Option<usize>,
 }
 
 fn request_for(kind: char) -> &'static [u8] {
@@ -228,7 +240,7 @@ fn wait_handled(n: usize, max: Duration) {
 /// first response has arrived).
 fn place(id: usize, kind: char, target: &str, wait: bool, ok_so_far: &mut usize, ports: &mut Vec<String>, refused: &mut Vec<String>) -> Client {
     record(format!("+a{}", id));
-    let mut c = Client { kind, stream: None, got: Vec::new(), placed_before_signal: false, denied_by_plan: false };
+    let mut c = Client { kind, stream: None, got: Vec::new(), placed_before_signal: false, denied_by_plan: false, ord: None };
     let addr: SocketAddr = target.parse().expect("target addr");
     match TcpStream::connect_timeout(&addr, Duration::from_millis(400)) {
         Err(_) => {
@@ -239,6 +251,7 @@ fn place(id: usize, kind: char, target: &str, wait: bool, ok_so_far: &mut usize,
             ports.push(format!("{}={}", id, s.local_addr().map(|a| a.port()).unwrap_or(0)));
             let ord = *ok_so_far;
             *ok_so_far += 1;
+            c.ord = Some(ord);
             let _ = s.write_all(request_for(kind));
             let _ = s.flush();
             c.stream = Some(s);
@@ -269,6 +282,53 @@ fn place(id: usize, kind: char, target: &str, wait: bool, ok_so_far: &mut usize,
     c
 }
 
+/// Wait until the accept loop has dealt with at least `n` connections. `false`: it has not moved for `STALL`.
+fn wait_progress(n: usize) -> bool {
+    let mut last = HANDLED.load(Ordering::SeqCst);
+    let mut since = Instant::now();
+    loop {
+        let h = HANDLED.load(Ordering::SeqCst);
+        if h >= n {
+            return true;
+        }
+        if h != last {
+            last = h;
+            since = Instant::now();
+        } else if since.elapsed() >= STALL {
+            return false;
+        }
+        std::thread::sleep(Duration::from_micros(100));
+    }
+}
+
+/// Mode `Q`, clients `from..`: connect (and send what the state needs) without waiting for the state, never more
+/// than `WINDOW` connections ahead of the accept loop; then wait until the loop has dealt with all of them.
+fn place_bulk(scn: &Scn, from: usize, target: &str, clients: &mut Vec<Client>, ok_so_far: &mut usize, ports: &mut Vec<String>, refused: &mut Vec<String>) {
+    let mut stalled = false;
+    for i in from..scn.kinds.len() {
+        if !stalled && *ok_so_far > WINDOW {
+            stalled = !wait_progress(*ok_so_far - WINDOW);
+        }
+        if stalled {
+            // never attempted: no `+a` token, listed with the refused ones
+            refused.push(i.to_string());
+            clients.push(Client { kind: scn.kinds[i], stream: None, got: Vec::new(), placed_before_signal: false, denied_by_plan: false, ord: None });
+        } else {
+            clients.push(place(i, scn.kinds[i], target, false, ok_so_far, ports, refused));
+        }
+    }
+    if !stalled {
+        wait_progress(*ok_so_far);
+    }
+    let handled = HANDLED.load(Ordering::SeqCst);
+    for c in clients.iter_mut().skip(from) {
+        if let Some(ord) = c.ord {
+            c.denied_by_plan = DENY.load(Ordering::SeqCst) && ord % 4 == 3;
+            c.placed_before_signal = handled >= ord + 1;
+        }
+    }
+}
+
 pub fn reset_globals(scn: &Scn) {
     LOG.lock().unwrap_or_else(|e| e.into_inner()).clear();
     HANDLED.store(0, Ordering::SeqCst);
@@ -279,6 +339,18 @@ pub fn reset_globals(scn: &Scn) {
 }
 
 pub fn run_scenario(scn: &Scn, launch: Launch) -> ScnResult {
+    // `None`: the port found by binding port 0 was taken (as the source port of some other process's connection)
+    // before `run` could bind it, `run` returned the bind error: not a run of the scenario, take another port
+    for _ in 0..5 {
+        if let Some(r) = run_once(scn, launch) {
+            return r;
+        }
+    }
+    let s = "NO-BIND".to_string();
+    ScnResult { scn: scn.text(), ports: s.clone(), refused: String::new(), must: String::new(), log: String::new(), summary: s, ret_ms: 0, clean: true }
+}
+
+fn run_once(scn: &Scn, launch: Launch) -> Option<ScnResult> {
     reset_globals(scn);
     let port = free_port(&scn.ip);
     let bind_addr = format!("{}:{}", scn.ip, port);
@@ -288,8 +360,13 @@ pub fn run_scenario(scn: &Scn, launch: Launch) -> ScnResult {
     let trigger = launch(scn, bind_addr.clone(), done_tx);
     // wait until the port is in LISTEN (read from /proc: a probe connection would be a client of the scenario)
     let t0 = Instant::now();
-    while !listening(port) && t0.elapsed() < Duration::from_millis(2000) {
+    let mut up = listening(port);
+    while !up && t0.elapsed() < Duration::from_millis(2000) {
+        if DONE_AT.lock().unwrap_or_else(|e| e.into_inner()).is_some() {
+            return None;
+        }
         std::thread::sleep(Duration::from_micros(300));
+        up = listening(port);
     }
     let mut rng = crate::common::Rng::new(scn.seed);
     let n = scn.kinds.len();
@@ -341,6 +418,14 @@ pub fn run_scenario(scn: &Scn, launch: Launch) -> ScnResult {
             t_signal = trx.recv_timeout(Duration::from_secs(5)).unwrap_or_else(|_| Instant::now());
             let _ = h.join();
         }
+        'Q' => {
+            let k = scn.k.min(n);
+            for i in 0..k {
+                clients.push(place(i, scn.kinds[i], &target, true, &mut ok_so_far, &mut ports, &mut refused));
+            }
+            place_bulk(scn, k, &target, &mut clients, &mut ok_so_far, &mut ports, &mut refused);
+            t_signal = fire(&mut trigger);
+        }
         _ => {
             for (i, k) in scn.kinds.iter().enumerate() {
                 clients.push(place(i, *k, &target, true, &mut ok_so_far, &mut ports, &mut refused));
@@ -368,7 +453,7 @@ pub fn run_scenario(scn: &Scn, launch: Launch) -> ScnResult {
         .collect();
     if !returned {
         let log = LOG.lock().unwrap_or_else(|e| e.into_inner()).join(" ");
-        return ScnResult { scn: scn.text(), ports: ports.join(","), refused: refused.join(","), must: must.join(","), log, summary: "WEDGED".into(), ret_ms, clean: false };
+        return Some(ScnResult { scn: scn.text(), ports: ports.join(","), refused: refused.join(","), must: must.join(","), log, summary: "WEDGED".into(), ret_ms, clean: false });
     }
     // --- measurement 2: can the port be bound again at once?
     let rebind = match TcpListener::bind(&bind_addr) {
@@ -385,7 +470,9 @@ pub fn run_scenario(scn: &Scn, launch: Launch) -> ScnResult {
             c.stream = None;
         }
     }
-    let deadline = Instant::now() + Duration::from_millis(4000);
+    // (large states: every queued connection is a task the workers have to get through first)
+    let per_conn = Duration::from_millis(2 * n as u64);
+    let deadline = Instant::now() + Duration::from_millis(4000) + per_conn;
     for c in clients.iter_mut() {
         if in_flight(c.kind) {
             read_response(c, deadline);
@@ -414,7 +501,7 @@ pub fn run_scenario(scn: &Scn, launch: Launch) -> ScnResult {
     // the workers leave once their connections are gone and the channel is closed
     let expect = if scn.rt == 't' { scn.threads } else { 0 };
     let t0 = Instant::now();
-    while WORKER_EXITS.load(Ordering::SeqCst) < expect && t0.elapsed() < Duration::from_millis(2500) {
+    while WORKER_EXITS.load(Ordering::SeqCst) < expect && t0.elapsed() < Duration::from_millis(2500) + per_conn {
         std::thread::sleep(Duration::from_micros(300));
     }
     let exited = WORKER_EXITS.load(Ordering::SeqCst);
@@ -429,7 +516,7 @@ pub fn run_scenario(scn: &Scn, launch: Launch) -> ScnResult {
         .collect::<Vec<_>>()
         .join(" ");
     let summary = format!("ret=ok;rebind={};exited={};clients={}", rebind, exited, if codes.is_empty() { "-".into() } else { codes });
-    ScnResult { scn: scn.text(), ports: ports.join(","), refused: refused.join(","), must: must.join(","), log, summary, ret_ms, clean: exited == expect }
+    Some(ScnResult { scn: scn.text(), ports: ports.join(","), refused: refused.join(","), must: must.join(","), log, summary, ret_ms, clean: exited == expect })
 }
 
 /// Child process loop: one scenario text per stdin line, one answer line per scenario:
